@@ -156,7 +156,12 @@ E(e, p, ns, sd, d) ==
                        IF TokAt(q, e.s) THEN S(q + Len(e.s), <<Str(e.s)>>, Str(e.s), ns, FALSE) ELSE F
     [] e.op = "pat" -> LET n == ClassRun(p, e.cls, IF e.many THEN N ELSE 1) IN
                        IF n < e.min THEN F
-                       ELSE S(p + n, <<Str(SubText(p, p + n))>>, Str(SubText(p, p + n)), ns, FALSE)
+                       ELSE IF e.cls2 = <<>> THEN S(p + n, <<Str(SubText(p, p + n))>>, Str(SubText(p, p + n)), ns, FALSE)
+                       ELSE \* two groups (disjoint classes: no backtracking between them): "the semantics of re.findall(pattern, text)[0]
+                            \* (a tuple if there is more than one group)" - docs/syntax.rst
+                            LET n2 == ClassRun(p + n, e.cls2, IF e.many2 THEN N ELSE 1)
+                                v == ClosedL(<<Str(SubText(p, p + n)), Str(SubText(p + n, p + n + n2))>>) IN
+                            IF n2 < e.min2 THEN F ELSE S(p + n + n2, <<v>>, v, ns, FALSE)
     [] e.op = "opat" -> LET m == OPat(e, p) IN IF m.n < 0 THEN F ELSE S(p + m.n, <<m.v>>, m.v, ns, FALSE)
     [] e.op = "meta" -> LET r == MetaMatch(e.kind, Skip(p)) IN
                         IF r.ok THEN S(r.p, <<r.v>>, r.v, ns, FALSE) ELSE F
